@@ -72,11 +72,11 @@ let run_b edits_s triples_s =
 
 (* the model predicts every refusal (`accepted`); nothing is copied from the implementation *)
 let run_w ids npool wops_s =
-  let mid, nid, sib, n2 = match String.split_on_char ':' ids with
-    | [a; b; c; d] -> cz a, cz b, cz c, cz d
+  let mid, nid, sib, n2, bigid, st2 = match String.split_on_char ':' ids with
+    | [a; b; c; d; e; f] -> cz a, cz b, cz c, cz d, cz e, (if f = "-1" then None else Some (cz f))
     | _ -> failwith "bad ids" in
   let pool = List.init (int_of_string npool) (fun _ -> []) in
-  let w = ref (init_world mid nid sib n2 pool) in
+  let w = ref (init_world mid nid sib n2 bigid st2 pool) in
   let toks = fields wops_s in
   let obs = List.map (fun tok ->
       let parts = String.split_on_char ':' tok in
@@ -94,6 +94,8 @@ let run_w ids npool wops_s =
         | ["At"] -> WAttach, None
         | ["De"] -> WDetach, None
         | ["DeA"] -> WDetachAll, None
+        | ["Bg+"] -> WBigAdd, None
+        | ["Bg-"] -> WBigRemove, None
         | ["Ba"] -> WBusAdd, None
         | ["Br"] -> WBusRemove, None
         | ["BrA"] -> WBusRemoveAll, None
@@ -118,9 +120,13 @@ let run_w ids npool wops_s =
 
 let () =
   let ic = open_in Sys.argv.(1) in
-  let n = ref 0 and bad = ref 0 in
+  let n = ref 0 and bad = ref 0 and end_seen = ref (-1) in
   (try while true do
       let line = input_line ic in
+      if String.length line >= 4 && String.sub line 0 4 = "END " then begin
+        end_seen := int_of_string (String.sub line 4 (String.length line - 4));
+        raise End_of_file
+      end;
       incr n;
       let impl, model =
         match String.split_on_char ';' line with
@@ -140,4 +146,8 @@ let () =
         end
       end
     done with End_of_file -> ());
+  if !end_seen <> !n then begin
+    Printf.printf "NO-VALID-END-MARKER (END says %d, %d cases read): the case file is truncated or not a C14 case file\n" !end_seen !n;
+    exit 3
+  end;
   Printf.printf "CASES %d MISMATCHES %d\n" !n !bad
